@@ -6,17 +6,24 @@
    that address (the old link is closed).  Every link the transport announced with HandleLinkEstablished must be announced lost
    when it is closed -- also when it was usurped by a session of a *different* identity (address re-use), in which case the
    controller cannot tell by itself (different link uuid).  BugNoLostOnUsurp re-creates the tree as found (D21): the lost
-   callback is suppressed whenever the link is no longer the current one for its address. *)
+   callback is suppressed whenever the link is no longer the current one for its address.
+
+   The established report of a link is delivered asynchronously (a goroutine of the transport, possibly deferred once more by
+   the controller's try-lock) and may be overtaken by the lost report of the same link (a link that is closed the moment it
+   exists).  The controller therefore also drops a registered link when its stream-accept pump ends (PumpExit): a closed link
+   unregisters itself.  BugNoSelfHeal re-creates the tree as found (D25): a link whose loss was reported before it was
+   registered stays registered for ever. *)
 EXTENDS Naturals, FiniteSets, Sequences, TLC
-CONSTANTS Addr, Ident, MaxLinks, BugNoLostOnUsurp
+CONSTANTS Addr, Ident, MaxLinks, BugNoLostOnUsurp, BugNoSelfHeal
 VARIABLES n,          \* links created so far
           def,        \* [1..n -> [addr, id]]
           open,       \* links whose session is open
           cur,        \* [Addr -> link or 0]      Transport.links
           pendingLost,\* closed links whose closed-callback has not run yet
+          pendingEst, \* links whose established report has not reached the controller yet
           reported    \* controller registry: set of links reported for their peer
-vars == <<n, def, open, cur, pendingLost, reported>>
-Init == n = 0 /\ def = <<>> /\ open = {} /\ cur = [a \in Addr |-> 0] /\ pendingLost = {} /\ reported = {}
+vars == <<n, def, open, cur, pendingLost, pendingEst, reported>>
+Init == n = 0 /\ def = <<>> /\ open = {} /\ cur = [a \in Addr |-> 0] /\ pendingLost = {} /\ pendingEst = {} /\ reported = {}
 Uuid(l) == <<def[l].addr, def[l].id>>
 \* HandleSession + HandleLinkEstablished (controller replaces a registered link with the same uuid)
 Session(a, i) ==
@@ -26,24 +33,39 @@ Session(a, i) ==
      /\ cur' = [cur EXCEPT ![a] = l]
      /\ open' = (open \ {old}) \cup {l}
      /\ pendingLost' = IF old # 0 /\ old \in open THEN pendingLost \cup {old} ELSE pendingLost
-     /\ reported' = {r \in reported : <<def[r].addr, def[r].id>> # <<a, i>>} \cup {l}
+     /\ pendingEst' = pendingEst \cup {l}
+     /\ UNCHANGED reported
+\* HandleLinkEstablished reaches the controller: it replaces a registered link with the same uuid
+\* (environment assumption A1, not established by this work: the established reports of one transport reach the controller in the
+\*  order in which the sessions were created; without it the late report of an older link with the same uuid would evict the newer one)
+EstCallback(l) ==
+  /\ l \in pendingEst /\ (\A k \in pendingEst : l <= k) /\ pendingEst' = pendingEst \ {l}
+  /\ reported' = {r \in reported : Uuid(r) # Uuid(l)} \cup {l}
+  /\ UNCHANGED <<n, def, open, cur, pendingLost>>
+\* the accept pump of a registered link ends because the link is closed: the controller drops it
+PumpExit(l) ==
+  /\ ~BugNoSelfHeal /\ l \in reported /\ l \notin open
+  /\ reported' = reported \ {l}
+  /\ UNCHANGED <<n, def, open, cur, pendingLost, pendingEst>>
 \* the remote end goes away / idle timeout: the session closes
-Close(l) == /\ l \in open /\ open' = open \ {l} /\ pendingLost' = pendingLost \cup {l} /\ UNCHANGED <<n, def, cur, reported>>
+Close(l) == /\ l \in open /\ open' = open \ {l} /\ pendingLost' = pendingLost \cup {l} /\ UNCHANGED <<n, def, cur, pendingEst, reported>>
 \* Link closed callback -> Transport.handleLinkLost -> handler.HandleLinkLost
 LostCallback(l) ==
   /\ l \in pendingLost /\ pendingLost' = pendingLost \ {l}
   /\ LET isCur == cur[def[l].addr] = l IN
      /\ cur' = IF isCur THEN [cur EXCEPT ![def[l].addr] = 0] ELSE cur
      /\ reported' = IF isCur \/ ~BugNoLostOnUsurp THEN reported \ {l} ELSE reported
-  /\ UNCHANGED <<n, def, open>>
-Next == (\E a \in Addr, i \in Ident : Session(a, i)) \/ (\E l \in 1..n : Close(l) \/ LostCallback(l))
-Spec == Init /\ [][Next]_vars /\ WF_vars(\E l \in 1..n : LostCallback(l))
-Quiescent == pendingLost = {}
+  /\ UNCHANGED <<n, def, open, pendingEst>>
+Next == (\E a \in Addr, i \in Ident : Session(a, i)) \/ (\E l \in 1..n : Close(l) \/ LostCallback(l) \/ EstCallback(l) \/ PumpExit(l))
+Spec == Init /\ [][Next]_vars /\ WF_vars(\E l \in 1..n : LostCallback(l) \/ EstCallback(l) \/ PumpExit(l))
+Quiescent == pendingLost = {} /\ pendingEst = {} /\ (BugNoSelfHeal \/ \A l \in reported : l \in open)
 \* C06: at quiescence the links reported are exactly the links established and not lost
 ReportedAreOpen == Quiescent => reported = open
 \* the address table names only open links, at most one per address
 CurOpen == Quiescent => \A a \in Addr : cur[a] # 0 => cur[a] \in open
 \* a newer link is never removed by the loss of an older one
 NewerSurvives == \A l \in open : cur[def[l].addr] = l
+\* a newer registered link is never removed by the late reports of an older one
+NewerReported == Quiescent => \A l \in open : l \in reported
 EventuallyQuiescent == []<>Quiescent
 =============================================================================
